@@ -282,10 +282,12 @@ def single_id(ctx, rep, rule):
         if kind != "assign":
             continue
         t = p.rvalue(st["rv"])
-        mask = facts.const_value("reqid::MAX_REQUEST_ID")
-        good = t[0] == "bin" and t[1] == "BitAnd" and (("const", mask) in (t[2], t[3]) or ("const", 0x7FFFFFFF) in (t[2], t[3])) and mask == 0x7FFFFFFF
+        # the constant may be renamed or replaced by the modulus: what counts is the value that reaches the operation
+        mask = facts.const_value("reqid::MAX_REQUEST_ID") if "reqid::MAX_REQUEST_ID" in facts.consts else None
+        cv = lambda x: x[1] if x[0] == "const" and len(x) > 1 and isinstance(x[1], int) else None  # noqa: E731
+        good = t[0] == "bin" and t[1] == "BitAnd" and 0x7FFFFFFF in (cv(t[2]), cv(t[3])) and mask in (None, 0x7FFFFFFF)
         # the low 31 bits as x.rem_euclid(2^31) (equal to x & 0x7fffffff for every i64, negative ones included)
-        if not good and t[0] == "call" and (t[1] or "").endswith("::rem_euclid") and len(t[2]) == 2 and t[2][1] == ("const", 0x80000000):
+        if not good and t[0] == "call" and (t[1] or "").endswith("::rem_euclid") and len(t[2]) == 2 and cv(t[2][1]) == 0x80000000:
             good = True
         rep.check(rule, "RequestId::get_next|mask", good, "id = random & 0x7fffffff", "id computed as %s with MAX_REQUEST_ID=%s" % (flow.fmt(t), mask),
                   gb.loc(line), obligation=True)
